@@ -43,9 +43,9 @@ impl Profile {
     /// Conforming programs (C04 and the base of C05/C10/C13/C14/C15/C18).
     pub fn conforming() -> Profile {
         Profile {
-            max_funcs: 5,
-            max_depth: 3,
-            stmts: (2, 7),
+            max_funcs: 4,
+            max_depth: 2,
+            stmts: (1, 5),
             p_recursive: 0.25,
             p_early_return: 0.3,
             p_mid_exit: 0.08,
@@ -68,9 +68,9 @@ impl Profile {
     /// Supported-subset programs that need not be conforming (C01, C02, C03, C11, C12).
     pub fn wild() -> Profile {
         Profile {
-            max_funcs: 5,
-            max_depth: 3,
-            stmts: (2, 8),
+            max_funcs: 4,
+            max_depth: 2,
+            stmts: (1, 6),
             p_recursive: 0.25,
             p_early_return: 0.3,
             p_mid_exit: 0.1,
@@ -240,6 +240,8 @@ struct G<'a> {
     /// opportunities left before the injection triggers
     inject_skip: usize,
     data_words: usize,
+    /// registers read by instructions emitted since the last `sync` (base program only)
+    read_log: u32,
 }
 
 struct F {
@@ -275,12 +277,20 @@ impl<'a> G<'a> {
         format!("{prefix}_{}", self.next_label)
     }
     fn emit(&mut self, i: Ins) -> usize {
-        self.out.push((Line::Ins(i), Flag::Both));
-        self.out.len() - 1
+        self.emit_flag(i, Flag::Both)
     }
     fn emit_flag(&mut self, i: Ins, f: Flag) -> usize {
+        if f != Flag::ViolOnly {
+            // a value counts as consumed exactly when an instruction reading it is emitted
+            self.read_log |= mask(&i.reads());
+        }
         self.out.push((Line::Ins(i), f));
         self.out.len() - 1
+    }
+    /// Apply the reads of the instructions emitted so far to the pending set.
+    fn sync(&mut self, f: &mut F) {
+        f.st.pending &= !self.read_log;
+        self.read_log = 0;
     }
     fn emit_label(&mut self, l: &str) {
         self.out.push((Line::Label(l.to_string()), Flag::Both));
@@ -321,6 +331,7 @@ impl<'a> G<'a> {
 
     /// A register that may be read now; consumes it.
     fn src(&mut self, f: &mut F) -> Reg {
+        self.sync(f);
         let readable = f.st.defined & !bit(SP) & !bit(RA) & !1;
         let pend = f.st.pending & readable & !bit(f.acc);
         let r = if pend != 0 && self.rng.chance(0.7) {
@@ -337,12 +348,12 @@ impl<'a> G<'a> {
                 return *self.rng.pick(&regs_of(any));
             }
         }
-        f.st.pending &= !bit(r);
         r
     }
 
     /// A register that may be overwritten now (not pending unless in `reads`).
     fn dst(&mut self, f: &mut F, reads: &[Reg]) -> Option<Reg> {
+        self.sync(f);
         let mut ok = f.pool & !f.reserved & !bit(f.acc) & !bit(f.never);
         let blocked = f.st.pending & !mask(reads);
         if !self.rng.chance(self.prof.p_dead_def) {
@@ -355,6 +366,7 @@ impl<'a> G<'a> {
     }
 
     fn define(&mut self, f: &mut F, r: Reg) {
+        self.sync(f);
         if r != ZERO {
             f.st.defined |= bit(r);
             f.st.pending |= bit(r);
@@ -365,9 +377,11 @@ impl<'a> G<'a> {
 
     /// Consume every pending register in `m` (never the accumulator itself).
     fn flush(&mut self, f: &mut F, m: u32) {
+        self.sync(f);
         let mut todo = regs_of(f.st.pending & m & !bit(f.acc) & !1);
         self.rng.shuffle(&mut todo);
         for r in todo {
+            self.sync(f);
             if f.st.pending & bit(r) == 0 {
                 continue;
             }
@@ -381,6 +395,7 @@ impl<'a> G<'a> {
     }
 
     fn sink(&mut self, f: &mut F, r: Reg) {
+        self.sync(f);
         f.st.pending &= !bit(r);
         let have_acc = f.st.defined & bit(f.acc) != 0;
         let choice = self.rng.below(10);
@@ -393,11 +408,13 @@ impl<'a> G<'a> {
         } else if have_acc {
             let op = *self.rng.pick(&[AluOp::Add, AluOp::Xor, AluOp::Or, AluOp::Sub]);
             self.emit(Ins::Alu { op, rd: f.acc, rs1: f.acc, rs2: r });
+            self.sync(f);
             f.st.pending |= bit(f.acc);
         } else {
             // first use of the accumulator: initialise it from the value
             self.emit(Ins::mv(f.acc, r));
             f.st.defined |= bit(f.acc);
+            self.sync(f);
             f.st.pending |= bit(f.acc);
         }
     }
@@ -512,6 +529,10 @@ impl<'a> G<'a> {
         // arguments first (they may use temporaries), a7 last
         for r in reads {
             if num == 4 {
+                self.sync(f);
+                if f.st.pending & bit(*r) != 0 {
+                    self.sink(f, *r);
+                }
                 self.emit(Ins::La { rd: *r, label: "dat_s".into() });
             } else if f.st.pending & bit(*r) != 0 && f.st.defined & bit(*r) != 0 {
                 // pass the pending value through
@@ -525,6 +546,7 @@ impl<'a> G<'a> {
                 }
             }
             f.st.defined |= bit(*r);
+            self.sync(f);
             f.st.pending |= bit(*r);
         }
         // everything caller-saved that is still pending must be consumed first
@@ -545,6 +567,7 @@ impl<'a> G<'a> {
             self.injected = true;
             self.site_out.push(e);
         }
+        self.sync(f);
         f.st.pending &= !CALLER_SAVED;
         f.st.defined &= !CALLER_SAVED;
         for w in writes {
@@ -571,6 +594,7 @@ impl<'a> G<'a> {
                 if f.st.stored.contains(&off) {
                     self.emit(Ins::lw(f.acc, off, SP));
                     f.st.defined |= bit(f.acc);
+                    self.sync(f);
                     f.st.pending |= bit(f.acc);
                 }
             }
@@ -636,6 +660,7 @@ impl<'a> G<'a> {
                 }
             }
             f.st.defined |= bit(*a);
+            self.sync(f);
             f.st.pending |= bit(*a);
         }
         self.flush(f, CALLER_SAVED & !mask(&args));
@@ -643,6 +668,7 @@ impl<'a> G<'a> {
         let call_line = self.emit(Ins::call(&name));
         f.made_call = true;
         f.calls_emitted += 1;
+        self.sync(f);
         f.st.pending &= !CALLER_SAVED;
         f.st.defined &= !CALLER_SAVED;
         if let Some(t) = stale_temp {
@@ -668,6 +694,7 @@ impl<'a> G<'a> {
         }
         for r in &rets {
             f.st.defined |= bit(*r);
+            self.sync(f);
             f.st.pending |= bit(*r);
         }
         self.restore_acc_after_call(f);
@@ -731,6 +758,7 @@ impl<'a> G<'a> {
             };
             // the reads above consumed pending values also in the base program: re-read them
             // there through a harmless sink so that the base stays clean
+            self.sync(f);
             f.st.pending |= (bit(a) | bit(b)) & f.st.defined & !1;
             let l = self.emit_flag(ins, Flag::ViolOnly);
             self.injected = true;
@@ -739,6 +767,7 @@ impl<'a> G<'a> {
         } else if self.want(Inject::StackAbove, f) {
             if !f.is_main {
                 let r = self.src(f);
+                self.sync(f);
                 f.st.pending |= bit(r) & f.st.defined & !1;
                 let k = self.rng.range(0, 3) as i32;
                 let l = self.emit_flag(Ins::sw(r, f.frame + 4 * k, SP), Flag::ViolOnly);
@@ -775,7 +804,11 @@ impl<'a> G<'a> {
                 let k = *self.rng.pick(&cands);
                 let name = self.sigs[k].name.clone();
                 let skip = self.label("skip");
-                let a = self.src(f);
+                let mut a = self.src(f);
+                if a == ZERO {
+                    a = f.acc;
+                }
+                self.sync(f);
                 f.st.pending |= bit(a) & f.st.defined & !1;
                 self.emit_flag(
                     Ins::Branch { c: Cond::Ge, rs1: a, rs2: ZERO, label: skip.clone() },
@@ -813,6 +846,7 @@ impl<'a> G<'a> {
         let l_else = self.label("else");
         let l_end = self.label("endif");
         let has_else = self.rng.chance(0.6);
+        self.sync(f);
         let fork = f.st.clone();
         self.emit(Ins::Branch {
             c,
@@ -823,6 +857,7 @@ impl<'a> G<'a> {
         f.depth += 1;
         // then arm
         let then_returns = self.arm(f, &fork, true);
+        self.sync(f);
         let then_st = f.st.clone();
         let mut else_st = fork.clone();
         let mut else_returns = false;
@@ -843,6 +878,7 @@ impl<'a> G<'a> {
             self.emit_label(&l_else);
             f.st = fork.clone();
             else_returns = self.arm(f, &fork, !then_returns);
+            self.sync(f);
             else_st = f.st.clone();
         }
         f.depth -= 1;
@@ -872,6 +908,7 @@ impl<'a> G<'a> {
         self.block(f);
         // values defined inside this arm only are consumed inside it
         // ... and so are caller-saved values: the other arm may contain a call that kills them
+        self.sync(f);
         let local = (f.st.pending & !fork.defined) | (f.st.pending & CALLER_SAVED);
         self.flush(f, local);
         // an arm may leave the function early (only at nesting depth 1, and only one arm)
@@ -894,10 +931,15 @@ impl<'a> G<'a> {
         let Some(cnt) = self.dst(f, &[]) else {
             return self.stmt_def(f);
         };
-        // a counter in a caller-saved register does not survive calls: forbid them in the body
-        let fragile = bit(cnt) & CALLER_SAVED != 0;
+        // Calls inside a loop body clobber every caller-saved register on the way round the back
+        // edge. Either the body makes no calls (then registers assigned before the loop may be
+        // read inside it), or it may make calls and starts with no caller-saved register assigned.
+        let calls_in_body = bit(cnt) & CALLER_SAVED == 0 && f.no_calls == 0 && self.rng.chance(0.5);
+        let fragile = !calls_in_body;
         if fragile {
             f.no_calls += 1;
+        } else {
+            self.flush(f, CALLER_SAVED);
         }
         let n = self.rng.range(1, 3) as i32;
         let l_top = self.label("loop");
@@ -908,6 +950,12 @@ impl<'a> G<'a> {
         f.st.pending &= !bit(cnt);
         let old_reserved = f.reserved;
         f.reserved |= bit(cnt);
+        self.sync(f);
+        if calls_in_body {
+            self.sync(f);
+            f.st.defined &= !CALLER_SAVED;
+            f.st.pending &= !CALLER_SAVED;
+        }
         let before = f.st.clone();
         self.emit_label(&l_top);
         if !do_while {
@@ -916,7 +964,8 @@ impl<'a> G<'a> {
         f.depth += 1;
         // no calls to recursive functions inside loops keeps run time bounded; plain calls ok
         self.block(f);
-        let local = f.st.pending & !before.defined;
+        self.sync(f);
+        let local = (f.st.pending & !before.defined) | (f.st.pending & CALLER_SAVED & u32::from(calls_in_body).wrapping_neg());
         self.flush(f, local);
         f.depth -= 1;
         self.emit(Ins::addi(cnt, cnt, -1));
@@ -931,6 +980,7 @@ impl<'a> G<'a> {
             f.no_calls -= 1;
         }
         // state after the loop
+        self.sync(f);
         let body = f.st.clone();
         if do_while {
             // body ran at least once; the counter was killed across calls inside the body only
@@ -966,10 +1016,14 @@ impl<'a> G<'a> {
 
     /// Restore and return. `early` marks an early return inside a conditional arm.
     fn epilogue(&mut self, f: &mut F, _early: bool) {
-        // results
+        // everything that is still unread is consumed first (into the accumulator or the frame)
+        self.flush(f, !0);
+        self.sync(f);
+        // results are derived from the accumulator
         let rets = f.rets.clone();
+        let acc_ok = f.st.defined & bit(f.acc) != 0;
         for r in &rets {
-            if f.st.defined & bit(f.acc) != 0 && *r != f.acc {
+            if acc_ok {
                 let imm = self.rng.range(0, 3) as i32;
                 self.emit(Ins::addi(*r, f.acc, imm));
             } else {
@@ -978,34 +1032,18 @@ impl<'a> G<'a> {
             }
             f.st.defined |= bit(*r);
         }
-        f.st.pending &= !bit(f.acc);
-        let keep = mask(&rets);
-        // everything else that is still pending is consumed (into the frame or the result)
-        let pend = regs_of(f.st.pending & !keep & !1);
-        for r in pend {
-            if self.rng.chance(self.prof.p_dead_def) {
-                continue;
-            }
-            if !f.spare.is_empty() && f.frame > 0 {
+        if rets.is_empty() && acc_ok && !self.rng.chance(self.prof.p_dead_def) {
+            if f.frame > 0 && !f.spare.is_empty() {
                 let off = *self.rng.pick(&f.spare);
-                self.emit(Ins::sw(r, off, SP));
-            } else if let Some(r0) = rets.first() {
-                self.emit(Ins::Alu { op: AluOp::Xor, rd: *r0, rs1: *r0, rs2: r });
+                self.emit(Ins::sw(f.acc, off, SP));
             } else {
-                // no frame and no result: park the value in the data buffer
+                // frameless, result-less function: park the accumulator in the data buffer
                 self.emit(Ins::La { rd: f.never, label: "dat_buf".into() });
-                self.emit(Ins::sw(r, 0, f.never));
+                self.emit(Ins::sw(f.acc, 4, f.never));
             }
         }
-        f.st.pending &= keep;
-        if f.rets.is_empty() && f.st.defined & bit(f.acc) != 0 && f.frame == 0 {
-            // accumulator of a frameless, result-less function: store it in the data buffer
-            self.emit(Ins::La { rd: f.never, label: "dat_buf".into() });
-            self.emit(Ins::sw(f.acc, 4, f.never));
-        } else if f.rets.is_empty() && f.st.defined & bit(f.acc) != 0 && !f.spare.is_empty() {
-            let off = *self.rng.pick(&f.spare);
-            self.emit(Ins::sw(f.acc, off, SP));
-        }
+        self.sync(f);
+        f.st.pending = 0;
         if f.frame > 0 {
             let no_restore = self.inject == Some(Inject::SavedNoRestore) && self.inject_fn == f.me;
             let victim = f.saved.first().map(|(r, _)| *r);
@@ -1150,6 +1188,7 @@ impl<'a> G<'a> {
             let v = self.imm32();
             self.emit(Ins::li(f.acc, v));
             f.st.defined |= bit(f.acc);
+            self.sync(&mut f);
             f.st.pending |= bit(f.acc);
         }
         if recursive {
@@ -1158,6 +1197,7 @@ impl<'a> G<'a> {
             let l_go = self.label("rec");
             f.st.pending &= !bit(a);
             self.emit(Ins::Branch { c: Cond::Lt, rs1: ZERO, rs2: a, label: l_go.clone() });
+            self.sync(&mut f);
             let keep = f.st.clone();
             self.flush(&mut f, !0);
             self.epilogue(&mut f, true);
@@ -1262,6 +1302,7 @@ impl<'a> G<'a> {
         let v = self.imm32();
         self.emit(Ins::li(acc, v));
         f.st.defined |= bit(acc);
+        self.sync(&mut f);
         f.st.pending |= bit(acc);
         self.block(&mut f);
         // every function is called at least once from the top level, in random order
@@ -1352,6 +1393,7 @@ pub fn generate(rng: &mut Rng, prof: &Profile, inject: Option<Inject>) -> Genera
         inject_fn,
         inject_skip,
         data_words,
+        read_log: 0,
     };
     // ----- emit the functions, then the top-level code (which calls every function)
     let mut funcs = Vec::new();
